@@ -568,7 +568,9 @@ func (vc *FnVC) doCall(ins ssa.Instruction, c *ssa.CallCommon, st *State) {
 			args = append(args, vc.val(a))
 		}
 		fc := vc.prog.contractOf(fn)
-		if fc == nil {
+		if fn.String() == "errors.As" && len(c.Args) == 2 {
+			results = vc.doErrorsAs(c, st)
+		} else if fc == nil {
 			results = vc.unknownCall(describeCallee(c), sig, st)
 		} else {
 			results = vc.applyContract(fc, fn.Signature, args, st, calleeLabel(fn))
@@ -1291,4 +1293,34 @@ func allExcept(loc string) []string {
 		out = append(out, strings.TrimSpace(p))
 	}
 	return out
+}
+
+// doErrorsAs models errors.As(err, &target) for a target that is a local pointer variable:
+// when it reports true it has stored a non-nil value of the target's type (package errors:
+// "As ... sets target to that error value and returns true"); nothing else changes.
+func (vc *FnVC) doErrorsAs(c *ssa.CallCommon, st *State) []Val {
+	vc.enc.usedTrusted["trusted errors.As (built-in model)"] = true
+	okN := vc.enc.freshConst("as$ok", sBool)
+	res := []Val{{k: vTerm, tv: TV{S: okN, Sort: sBool, Ty: types.Typ[types.Bool]}}}
+	mi, isMI := c.Args[1].(*ssa.MakeInterface)
+	if !isMI {
+		vc.havocAll(st, "ghost")
+		return res
+	}
+	cell, isAlloc := mi.X.(*ssa.Alloc)
+	if !isAlloc {
+		vc.havocAll(st, "ghost")
+		return res
+	}
+	et := cell.Type().(*types.Pointer).Elem()
+	comp, sortS := vc.cellComp(et)
+	ref := vc.term(cell).S
+	nv := vc.enc.freshConst("as$val", sortS)
+	vc.assume(vc.typeInv(st, nv, et))
+	if sortS == sInt {
+		vc.assume(implies(okN, not(eq(nv, "0"))))
+	}
+	cur := vc.cur(st, comp)
+	vc.setCompFresh(st, comp, ite(okN, sto(cur, ref, nv), cur))
+	return res
 }
